@@ -12,7 +12,7 @@ RULE = ("isvalidaa / isvalidcdr3 on every string up to length 4 over {C,A,F,W,x,
         "non-trivial = a cell that standardisation changes / a key present in only some tables")
 ASSUMPTIONS = ["tidytcells is the oracle for what a cell standardises to (property wording); what is decided is option routing, cell locality and input preservation",
                "without suffixes the value columns of the tables have distinct names (pandas would otherwise add its own _x/_y suffixes)"]
-REQUIRED_CLASSES = {"all": ["rotating-col_mapper", "object-dtype-table", "df_old-keyword", "same-text-in-tr-and-mhc-column", "empty-string", "non-string-object", "missing-cell", "junk-cell", "option-sensitive-cell", "col_mapper", "shifted-index", "extra-column", "merge-on-column", "merge-suffixes", "merge-partial-keys", "merge-repeated-keys", "merge-identical-sorted-key-sequences", "merge-index-named-like-key-column", "merge-table-without-rows", "table-without-rows", "options-by-position"]}
+REQUIRED_CLASSES = {"all": ["rotating-col_mapper", "object-dtype-table", "df_old-keyword", "same-text-in-tr-and-mhc-column", "empty-string", "non-string-object", "missing-cell", "junk-cell", "option-sensitive-cell", "col_mapper", "shifted-index", "extra-column", "merge-on-column", "merge-suffixes", "merge-partial-keys", "merge-repeated-keys", "merge-identical-sorted-key-sequences", "merge-index-named-like-key-column", "merge-table-without-rows", "table-without-rows", "options-by-position", "merge-data-column-called-index"]}
 MIN_OUTCOMES = 10
 AA = set("ACDEFGHIKLMNPQRSTVWY")
 
@@ -312,13 +312,17 @@ def _check_merge_dup(acc, case):
     vals = [[100 * ti + 10 * pos + k for pos, k in enumerate(kl)] for ti, kl in enumerate(keylists)]
     for on in ("index", "k"):
         for suff in (None, ["s%d" % i for i in range(nt)]):
-            for named_index in ((False, True) if (suff and on != "index") else (False,)):
+            for named_index in ((False, True) if suff else (False,)):
                 for how in (None, "inner", "left"):
                     dfs = []
                     for ti, kl in enumerate(keylists):
                         vname = "v" if suff else "v%d" % ti
                         if on == "index":
                             d = pd.DataFrame({vname: pd.Series(vals[ti], dtype="int64").values}, index=pd.Index(list(kl), dtype="int64"))
+                            if named_index:
+                                # a data column that happens to be called "index" (the leftover of a reset_index()): the key is still the row index
+                                acc.cls("merge-data-column-called-index")
+                                d["index"] = d[vname] + 1000
                         else:
                             d = pd.DataFrame({on: pd.Series(list(kl), dtype="int64"), vname: pd.Series(vals[ti], dtype="int64")})
                             if named_index:
@@ -355,7 +359,12 @@ def _check_merge_dup(acc, case):
                         got = collections.Counter()
                         for pos, k in enumerate(got_keys):
                             got[(k,) + tuple(None if pd.isna(body[nm].iloc[pos]) else int(body[nm].iloc[pos]) for nm in names)] += 1
-                        okc = sorted(body.columns) == sorted(names)
+                        okc = sorted(body.columns) == sorted(names + (["index_s%d" % i for i in range(nt)] if (named_index and on == "index") else []))
+                        if okc and named_index and on == "index":
+                            for i in range(nt):
+                                a_, b_ = body["index_s%d" % i], body["v_s%d" % i]
+                                if not ((a_ - 1000 == b_) | (a_.isna() & b_.isna())).all():
+                                    okc = False
                     except Exception as e:
                         acc.fail(key + "/malformed", case, sorted(exp, key=str), repr(r)[:300], note=repr(e))
                         return
